@@ -313,7 +313,7 @@ def make_case(g: G, depth, opts):
             ops.append(["reclose", ["closure", prog[1], new_stored, prog[3]]])
             tags = ["N"] * len(atys)
             u = r.random()
-            if u < 0.4 and not has_node(prog, NO_REGEN):
+            if u < 0.7 and not has_node(prog, NO_REGEN):
                 ops.append(["regen", s, g.selection(universe), cur_args, tags])
             else:
                 ops.append(["upd", s, g.constraint(universe, coverage=r.choice([0.0, 0.0, 0.3])), cur_args, False, tags])
@@ -358,6 +358,8 @@ def make_case(g: G, depth, opts):
     case = {"prog": prog, "atys": atys, "ops": ops}
     if opts.get("retag"):
         case["retag"] = True
+    if opts.get("derived"):
+        case["derived"] = True
     if opts.get("jit") and r.random() < opts["jit"]:
         case["jit"] = True
     elif opts.get("py") and r.random() < opts["py"]:
